@@ -655,7 +655,9 @@ impl<'a> Gen<'a> {
     fn range(&mut self) -> RangeE {
         match self.rng.below(10) {
             0..=3 => RangeE::Counted(Expr::Int(self.rng.range(0, 2)), Expr::Int(self.rng.range(1, 4))),
-            4 => RangeE::Counted(Expr::Var(self.name()), Expr::Int(self.rng.range(1, 4))),
+            // range bounds only from never-assigned names: a captured string such as "-106160616"
+            // parses as an integer and `(x..2)` would then try to allocate 10^13 elements
+            4 => RangeE::Counted(Expr::Var(IMMUTABLE[self.rng.below(IMMUTABLE.len())].to_string()), Expr::Int(self.rng.range(1, 4))),
             5..=8 => RangeE::Coll(Expr::Var("arr".into())),
             _ => RangeE::Coll(Expr::Var(self.name())),
         }
